@@ -608,6 +608,26 @@ RetDead(h0, e) ==
   IN IF k = 0 THEN h2
      ELSE [Tick(h2, "C19") EXCEPT !.reqs[k].st = "ref", !.reqs[k].refp = "C19"]
 
+\* C12 / C17: a session that has room is usable.  A QoS > 0 publish is refused with NotReady only
+\* when the broker's window is full (publishes accepted and not resolved by an acknowledgement the
+\* client has consumed) or the transmit arena has less than a fixed header's worth of room behind the
+\* packets it still retains (spec/Minimq.tla Inv_Usable, spec/Arena.tla PubAnswer).  Silent while a
+\* cancelled request leaves it unknown what is in flight.
+RECURSIVE HeldBytes(_, _)
+HeldBytes(h, S) == IF S = {} THEN 0 ELSE LET j == CHOOSE j \in S : TRUE IN Len(h.reqs[j].bytes) + HeldBytes(h, S \ {j})
+HasRoom(h, k) ==
+  LET cur == {j \in 1..Len(h.reqs) : j # k /\ h.reqs[j].ep = h.epoch /\ h.reqs[j].ph # "done"}
+      unsure == {j \in cur : h.reqs[j].st \in {"pend", "unk"}}
+      acc == {j \in cur : h.reqs[j].st = "acc"}
+      pubs == {j \in acc : h.reqs[j].kind \in {"P1", "P2"}}
+      held == {j \in acc : h.reqs[j].ph = "new"}
+      window == IF h.ack.have THEN h.ack.rm ELSE 8
+  IN /\ unsure = {} /\ {j \in held : h.reqs[j].bytes = << >>} = {}
+     /\ Cardinality(pubs) < window /\ Cardinality(held) < 8
+     /\ h.cfg.tx - HeldBytes(h, held) >= 5
+Quiet(h, k) == {j \in 1..Len(h.reqs) : j # k /\ h.reqs[j].ep = h.epoch /\ h.reqs[j].ph # "done"
+                                          /\ h.reqs[j].st # "ref"} = {}
+
 RetRequest(h0, e) ==
   \* publish (QoS > 0) / subscribe / unsubscribe
   LET h == Tick(h0, "C19")
@@ -619,17 +639,26 @@ RetRequest(h0, e) ==
             THEN CheckKF(h, ~inval, "C19", "a request with illegal arguments was not refused as invalid",
                          "D11b", OnlyAliasZero(o))
             ELSE h
+      room == k # 0 /\ r.k = "err" /\ r.v = "NotReady" /\ h.reqs[k].kind \in {"P1", "P2"} /\ h.taint = 0
+              /\ ~h.dcconn /\ HasRoom(h, k)
+      h1b == IF room
+             THEN LET a == Viol(Tick2(h1, "C12", "C17"), IF Quiet(h, k) THEN "C17" ELSE "C12",
+                                "a publish was refused as not ready although the window, the slots and the arena have room")
+                  IN IF Quiet(h, k) /\ h.ci > 1
+                     THEN Viol(a, "C12", "a publish was refused as not ready although the window, the slots and the arena have room")
+                     ELSE a
+             ELSE IF k # 0 /\ h.reqs[k].kind \in {"P1", "P2"} THEN Tick2(h1, "C12", "C17") ELSE h1
   IN
   IF k = 0 THEN h1
   ELSE
   IF r.k = "ok" /\ r.h >= 0 THEN
-     [h1 EXCEPT !.reqs[k].st = IF @ = "pend" THEN "acc" ELSE @, !.reqs[k].hidx = r.h,
+     [h1b EXCEPT !.reqs[k].st = IF @ = "pend" THEN "acc" ELSE @, !.reqs[k].hidx = r.h,
                 !.hmap = Append(@, k)]
   ELSE IF r.k = "ok" THEN
      Viol(h1, "C18", "an identifier-bearing request returned no operation handle")
   ELSE IF r.v \in Local THEN
      LET p == RefusalProperty(r.v)
-         h2 == IF h.reqs[k].st = "acc" THEN Viol(h1, p, "a locally refused request reached the wire") ELSE h1
+         h2 == IF h.reqs[k].st = "acc" THEN Viol(h1b, p, "a locally refused request reached the wire") ELSE h1b
      IN [h2 EXCEPT !.reqs[k].st = "ref", !.reqs[k].refp = p]
   ELSE [h1 EXCEPT !.reqs[k].st = IF @ = "pend" THEN "unk" ELSE @]
 
